@@ -352,9 +352,8 @@ let () =
          match toks with
          | id :: "C" :: rest ->
            gnow := Z0;
-           (* every call list starts on a fresh machine (the harness replaces the process-global machine); a poisoned
-              mutex stays poisoned *)
-           (match !gstate with GPoisoned -> () | GLive _ -> gstate := GLive (mach_new Z0));
+           (* every call list starts on a fresh machine with a usable mutex (hook verif_global_fresh) *)
+           gstate := GLive (mach_new Z0);
            let out = List.map capi_tok rest in
            Printf.fprintf oc "%s %s\n" id (String.concat " " out)
          | id :: "S" :: _ ->
